@@ -117,10 +117,9 @@ class _SolveIVP(torch.autograd.Function):
         # save the parameters for backward
         ctx.param_sep = TensorNonTensorSeparator(allparams, varonly=True)
         tensor_params = ctx.param_sep.get_tensor_params()
-        ctx.save_for_backward(ts, y0, *tensor_params)
+        ctx.save_for_backward(ts, y0, yt, *tensor_params)
         ctx.pfcn = pfcn
         ctx.nparams = nparams
-        ctx.yt = yt
         ctx.ts_requires_grad = ts.requires_grad
 
         return yt
@@ -131,14 +130,14 @@ class _SolveIVP(torch.autograd.Function):
         nparams = ctx.nparams
         pfcn = ctx.pfcn
         param_sep = ctx.param_sep
-        yt = ctx.yt
         ts_requires_grad = ctx.ts_requires_grad
 
         # restore the parameters
         saved_tensors = ctx.saved_tensors
         ts = saved_tensors[0]
         y0 = saved_tensors[1]
-        tensor_params = list(saved_tensors[2:])
+        yt = saved_tensors[2]
+        tensor_params = list(saved_tensors[3:])
         allparams = param_sep.reconstruct_params(tensor_params)
         ntensor_params = len(tensor_params)
         params = allparams[:nparams]
